@@ -12,7 +12,8 @@ from . import c08
 from mirsym.universe import Universe, UType
 
 G = {}
-MENU = ['T.ts', 'a.ts', './a.ts', 's/a.ts', '../a.ts', 's/../a.ts']       # placements of dependencies; T itself lives in T.ts
+# placements of dependencies; T itself lives in T.ts (so `T.ts` and `s/../T.ts` are two spellings of T's own file)
+MENU = ['T.ts', 'a.ts', './a.ts', 's/a.ts', '../a.ts', 's/../a.ts', 's/../T.ts']
 NOTE = c08.__dict__.get('NOTE')
 
 
@@ -363,11 +364,11 @@ def items_for(quick):
     allperms = [list(p) for p in itertools.permutations([1, 2, 3])]
     bases = [None, 'out'] if quick else [None, 'out', './o/', '/tmp/o', 'a/../o']
     tails = [(), (0,), (1,)] if quick else [(), (0,), (1,), (2, 0), (3, 3)]
-    menu23 = ['T.ts', 'a.ts', './a.ts', '../a.ts'] if quick else MENU
+    menu23 = ['T.ts', 'a.ts', '../a.ts', 's/../T.ts'] if quick else MENU
     perms = [allperms[5], allperms[3]] if quick else allperms
     for cfg in ('plain', 'esm'):
         for base in (bases if cfg == 'plain' else bases[:1]):
-            for tail in (tails if cfg == 'plain' else tails[:2]):
+            for tail in (tails if (cfg == 'plain' and base is None) else tails[:2]):
                 items.append((cfg, base, tail, 0, menu23, perms))
             items.append((cfg, base, (), 2 if quick else 3, menu23[:3], perms[:2]))
     return items
